@@ -76,6 +76,7 @@ def make_ops(m0, rng, light=False):
             ids.append(lab)
     rng.shuffle(ids)
     ops = {}
+    rng_mtv = rng.choice([13, 18, 25, 31])
     ops['state'] = lambda m, k: state_digest(m)
     _dumps = lambda o: json.dumps(o, cls=EntityEncoder)
     ops['flat_json'] = lambda m, k: _dumps(_hold(k, 'flat_json object', FlatJsonRenderer().render(m), _dumps))
@@ -116,6 +117,28 @@ def make_ops(m0, rng, light=False):
     # one rendered object handed to several encoders in turn
     ops['encode_kept/default'] = lambda m, k: Encoder().process(kept_obj(m, k)).serialized_bytes.hex()
     ops['encode_kept/honour'] = lambda m, k: Encoder(ignore_declared_length=False).process(kept_obj(m, k)).serialized_bytes.hex()
+    # the same rendered object given to an encoder that overrides the table version, then to plain encoders again
+    ops['encode_kept/override'] = lambda m, k: Encoder(master_table_version=rng_mtv).process(kept_obj(m, k)).serialized_bytes.hex()
+    # ONE long-lived encoder given the same object several times (and other objects in between)
+    ops['encode_kept/same-encoder'] = lambda m, k: k.setdefault('enc', Encoder()).process(kept_obj(m, k)).serialized_bytes.hex()
+    ops['encode_kept/same-compiling-encoder'] = lambda m, k: k.setdefault('cenc', Encoder(compiled_template_cache_max=3)).process(kept_obj(m, k)).serialized_bytes.hex()
+
+    def nested_to_flat(m, k):
+        # the nested view a caller holds, handed to the converter; the view is still his afterwards
+        from pybufrkit.utils import nested_json_to_flat_json
+        if 'nj' not in k:
+            k['nj'] = _hold(k, 'nested_json object given to the converter', NestedJsonRenderer().render(m), _dumps)
+        return _dumps(nested_json_to_flat_json(k['nj']))
+    ops['nested_to_flat'] = nested_to_flat
+    if 'n_subsets' in pos and n > 1 and not light:
+        si_n, pi_n = pos['n_subsets']
+
+        def fewer_by_count(m, k, si=si_n, pi=pi_n):
+            # the first subset(s) only, by lowering the count: the rows are the message's own (surplus rows are not encoded)
+            obj = _variant(FlatJsonRenderer().render(m))
+            obj[si][pi] = 1
+            return Encoder().process(obj).serialized_bytes.hex()
+        ops['encode_fewer_subsets_by_count'] = fewer_by_count
     if 'is_compressed' in pos and not light:
         si, pi = pos['is_compressed']
 
@@ -170,10 +193,17 @@ SCRIPTS = [
     ('query:', 'wire', 'script:', 'query:', 'script:'),
     ('script:', 'wire', 'script:', 'nested_json'),
     ('query:@', 'wire_template_data', 'nested_json', 'query:@'),
+    ('encode_kept/override', 'encode_kept/default', 'state', 'encode_kept/override', 'encode_kept/honour'),
+    ('encode_kept/same-encoder', 'encode_kept/same-encoder', 'encode_rendered_object', 'encode_kept/same-encoder', 'state'),
+    ('encode_kept/same-compiling-encoder', 'encode_kept/same-encoder', 'encode_kept/same-compiling-encoder', 'encode_kept/same-encoder'),
+    ('nested_json', 'nested_to_flat', 'nested_json', 'nested_to_flat', 'nested_text'),
+    ('wire', 'nested_to_flat', 'query:', 'nested_to_flat'),
+    ('encode_fewer_subsets_by_count', 'state', 'flat_json', 'encode_rendered_object', 'encode_fewer_subsets_by_count'),
+    ('flat_json', 'encode_fewer_subsets_by_count', 'nested_json', 'subset'),
 ]
 
 
-HIERARCHICAL = ('nested_json', 'nested_text', 'query', 'script')
+HIERARCHICAL = ('nested_json', 'nested_text', 'query', 'script', 'nested_to_flat')
 
 
 def interference(rng):
